@@ -1,6 +1,8 @@
 import JxlModel.Driver.C13
+import JxlModel.Driver.Enc
 
 def main (args : List String) : IO UInt32 := do
   match args with
   | ["c13"] => Jxl.Driver.C13.main; return 0
+  | ["enc"] => Jxl.Driver.Enc.main; return 0
   | _ => IO.eprintln "usage: jxlmodel <component>"; return 2
